@@ -18,7 +18,7 @@ RULE = ("random values nested to depth <=6 over list, tuple (0/1/n elements), di
 ASSUMPTIONS = ["eval namespace maps the constructors and the text \"<class 'int'>\" (Python's own repr of a "
                "default_factory) back to the type",
                "string leaves avoid the literal text '... +' so abbreviation markers can be counted"]
-REQUIRED = ["mon.after_interrupted_call", "mon.pretty_renderable", "mon.node_rerendered", "mon.eval_back", "mon.equals_repr_when_fits", "mon.layout", "mon.cycle", "mon.max_length",
+REQUIRED = ["mon.after_interrupted_call", "mon.pretty_renderable", "mon.node_rerendered", "mon.eval_back", "mon.equals_repr_when_fits", "mon.layout", "mon.cycle", "mon.cycle_eval_back", "mon.max_length",
             "mon.max_string", "mon.width_at_the_edge_of_fitting"]
 MIN_NONTRIVIAL = {"quick": 3000, "thorough": 150000}
 
@@ -373,6 +373,52 @@ def wl_cycles(ctx, rng, case_no):
     if "..." not in out:
         ctx.violation("cycle-without-ellipsis-marker", {"kind": kind, "output": out})
     ctx.case_done(("cyc", kind, width, out), True, {"kind": kind, "width": width, "output": out})
+    # random structures with several back-references (to the container itself or to any container around it, in lists,
+    # dicts, deques and tuples holding them): the marker `...` is a Python expression (Ellipsis), so the output must
+    # EVALUATE to the data with every back-reference replaced by Ellipsis - a twin built alongside, never derived from
+    # the output
+    nrefs = [0]
+
+    def build(depth, ancestors):
+        kind_ = rng.choice(["list", "list", "dict", "deque", "tuple"]) if depth > 0 else "leaf"
+        if kind_ == "leaf":
+            leaf = rand_leaf(rng)
+            return leaf, leaf
+        real = {"list": list, "dict": dict, "deque": deque, "tuple": list}[kind_]()
+        twin = {"list": list, "dict": dict, "deque": deque, "tuple": list}[kind_]()
+        around = ancestors + ([real] if kind_ != "tuple" else [])
+        for i in range(rng.choice([0, 1, 2, 3, 5])):
+            if around and rng.random() < 0.3:
+                r_, t_ = rng.choice(around), Ellipsis
+                nrefs[0] += 1
+            else:
+                r_, t_ = build(depth - 1, around)
+            if kind_ == "dict":
+                key = "k%d" % i
+                real[key] = r_
+                twin[key] = t_
+            else:
+                real.append(r_)
+                twin.append(t_)
+        if kind_ == "tuple":
+            return tuple(real), tuple(twin)
+        return real, twin
+    real, twin = build(rng.choice([1, 2, 3]), [])
+    if not nrefs[0] or not isinstance(real, (list, dict, deque)):
+        return
+    width = rng.choice([1, 8, 20, 40, 80, 120])
+    opts = {"max_width": width, "indent_size": rng.choice([2, 4]), "expand_all": rng.random() < 0.2}
+    out = pretty_repr(real, **opts)
+    ctx.count("mon.cycle_eval_back")
+    wit = {"twin_with_Ellipsis_for_back_references": repr(twin), "options": opts, "output": out, "back_references": nrefs[0]}
+    try:
+        back = eval(out, {"deque": deque, "__builtins__": {}})
+    except Exception as e:
+        ctx.violation("cyclic-structure-output-is-not-an-expression", dict(wit, error=repr(e)))
+        return
+    if back != twin or type(back) is not type(twin):
+        ctx.violation("cyclic-structure-evaluates-to-different-value", dict(wit, evaluated=repr(back)))
+    ctx.case_done(("cyc2", repr(twin), width), nrefs[0] >= 2, wit)
 
 
 def expected_omissions(v, max_length):
@@ -434,7 +480,7 @@ def wl_abbrev(ctx, rng, case_no):
 def workloads(tier):
     big = tier == "thorough"
     return [WL("values", wl_values, 1500000 if big else 80000),
-            WL("cycles", wl_cycles, 2000 if big else 400),
+            WL("cycles", wl_cycles, 200000 if big else 6000),
             WL("abbreviations", wl_abbrev, 200000 if big else 10000)]
 
 
